@@ -30,7 +30,7 @@ MANIFEST = {
 }
 MANIFEST["text"] += " " + (
     "Added after the seeding waves: where neither a lattice width nor non-emitting states are configured, 'live' is additionally read as 'scheduled for the current round' (nothing can legitimately re-postpone a predecessor there); graphs with a connectivity gap (two islands, two feeder roads) so that continue_with_distance produces live jump entries; width-2 configurations; four configurations with the package logger at DEBUG (stopped entries exist only there); non_emitting_states_maxnb = 1.")
-BUDGET = {"quick": 420, "thorough": 3000}
+BUDGET = {"quick": 900, "thorough": 3000}
 RULE = ("cases = (graph, trace); below each, one BFS per configuration. states = distinct canonical lattice snapshots reached, "
         "transitions = public operations executed (including replays to rebuild a state), traces validated = states on which all "
         "invariants were evaluated; non-trivial = the state was reached by at least one widen/extend/continue operation and its "
